@@ -111,6 +111,38 @@ Definition launched (d : list Z) (i : nat) : bool := negb (nth (S i) d 0 - nth i
 
 End Split.
 
+(** * Per-GPU slices of the benchmarks that split their own work
+    (discrete GPUs, one queue per GPU) *)
+Module Bench.
+Import Pages.
+Open Scope N_scope.
+
+(** fir / relu (and aes, kmeans): GPU i of g handles the elements
+    [i*n/g, (i+1)*n/g) — [first := gpuIndex * numWi / numGPUs] etc. *)
+Definition bal_first (n g i : N) : N := i * n / g.
+Definition bal_slice (n g i : N) : N * N :=
+  (bal_first n g i, bal_first n g (i + 1) - bal_first n g i).
+
+(** matrixtranspose exec(): ceil(n/g) work-group columns per GPU, the last
+    GPUs get the remainder or nothing ([firstWGX >= numWGWidth -> break]). *)
+Definition ceil_per (n g : N) : N := (n + g - 1) / g.
+Definition ceil_slice (n g i : N) : N * N :=
+  let f := ceil_per n g * i in
+  (f, if n <=? f then 0 else N.min (ceil_per n g) (n - f)).
+
+(** (first, length) of every GPU 0..g-1 *)
+Definition slices (sl : N -> N * N) (g : N) : list (N * N) := map sl (upto g).
+
+(** the items of a slice *)
+Definition cells (s : N * N) : list N := map (fun j => fst s + j) (upto (snd s)).
+
+(** the launches one expects to see: GPU index (from 1) and slice length of
+    the GPUs with a non-empty slice *)
+Definition launches (sl : N -> N * N) (g : N) : list (N * N) :=
+  filter (fun p => negb (snd p =? 0)) (map (fun i => (i + 1, snd (sl i))) (upto g)).
+
+End Bench.
+
 (** * Correspondence records (filled by harness/cmd/c18) *)
 Module Tie.
 Import Pages Split.
@@ -171,4 +203,17 @@ Fixpoint bad_from {A} (chk : A -> bool) (i : nat) (cs : list A) : list (nat * na
   end.
 Definition dmismatches := bad_from check_dcase 0.
 Definition smismatches := bad_from check_scase 0.
+
+(** A benchmark run: [b_ceil] selects the split (false = balanced, true =
+    ceil), [b_n] items over [b_g] GPUs, and the (GPU, length) pairs of the
+    kernel launches the driver really sent, sorted by GPU. *)
+Record bcase := mkBCase { b_ceil : bool; b_n : N; b_g : N; b_seen : list (N * N) }.
+
+Definition pair_eqb (a b : N * N) : bool := (fst a =? fst b)%N && (snd a =? snd b)%N.
+
+Definition check_bcase (c : bcase) : bool :=
+  list_eqb2 pair_eqb (b_seen c)
+    (Bench.launches (if b_ceil c then Bench.ceil_slice (b_n c) (b_g c) else Bench.bal_slice (b_n c) (b_g c)) (b_g c)).
+
+Definition bmismatches := bad_from check_bcase 0.
 End Tie.
